@@ -188,7 +188,7 @@ func randomConfig(r *rand.Rand, old string) proj.Config {
 	case 1:
 		c.Alias, c.PkgName, c.PkgPath = "cov", "covpkg", "internal/cov"
 	case 2:
-		c.Alias, c.PkgName, c.PkgPath = "g2", "goat", "tools/goat"
+		c.Alias, c.PkgName, c.PkgPath = "gcov", "goat", "tools/goat"
 	}
 	return c
 }
